@@ -3,6 +3,7 @@ import Dalek.Driver.Fast
 import Dalek.Model.AlgNat
 import Dalek.Model.Ladder
 import Dalek.Model.RistrettoDalek
+import Dalek.Model.ScalarApi
 import Dalek.Gen.All
 /-
   Dalek.Driver.GenCheck — second opinions computed from the TRANSLATED formulas (AlgIR items of `Dalek.Gen.Alg*`,
@@ -63,6 +64,40 @@ def altVec (name : String) (args : List String) : Option String :=
       | _, _ => none
   | _, _ => none
 
+
+/-! ### scalars: the hand-transcribed `Scalar` API (`Dalek.Model.ScalarApi`) composed of the TRANSLATED `Scalar52` kernels -/
+
+def scB (s : String) : Option (List Nat) :=
+  (by32 s).map fun b => Dalek.Model.ScalarApi.fromBytesModOrder (b.map UInt8.toNat)
+
+def scH (b : List Nat) : String := hexEncode (b.map UInt8.ofNat)
+
+def altScalar (op : String) (args : List String) : Option String :=
+  match op, args with
+  | "sc.reduce", [a] => (scB a).map fun x => "ok " ++ scH x
+  | "sc.reduce_wide", [a] =>
+      match hexDecode a with
+      | some b => if b.length = 64 then some ("ok " ++ scH (Dalek.Model.ScalarApi.fromBytesModOrderWide (b.map UInt8.toNat))) else none
+      | none => none
+  | "sc.canonical", [a] => (by32 a).map fun b =>
+      match Dalek.Model.ScalarApi.fromCanonicalBytes (b.map UInt8.toNat) with
+      | some x => "ok " ++ scH x
+      | none => "none"
+  | "sc.add", [a, b] => match scB a, scB b with
+      | some x, some y => some ("ok " ++ scH (Dalek.Model.ScalarApi.add x y)) | _, _ => none
+  | "sc.sub", [a, b] => match scB a, scB b with
+      | some x, some y => some ("ok " ++ scH (Dalek.Model.ScalarApi.sub x y)) | _, _ => none
+  | "sc.mul", [a, b] => match scB a, scB b with
+      | some x, some y => some ("ok " ++ scH (Dalek.Model.ScalarApi.mul x y)) | _, _ => none
+  | "sc.neg", [a] => (scB a).map fun x => "ok " ++ scH (Dalek.Model.ScalarApi.neg x)
+  | "sc.invert", [a] => (scB a).map fun x => "ok " ++ scH (Dalek.Model.ScalarApi.invert x)
+  | "sc.sum", [l] => ((parseList l).mapM scB).map fun xs => "ok " ++ scH (Dalek.Model.ScalarApi.sum xs)
+  | "sc.product", [l] => ((parseList l).mapM scB).map fun xs => "ok " ++ scH (Dalek.Model.ScalarApi.product xs)
+  | "sc.batch_invert", [l] => ((parseList l).mapM scB).map fun xs =>
+      let (outs, ret) := Dalek.Model.ScalarApi.batchInvert xs
+      "ok " ++ scH ret ++ " " ++ fmtList (outs.map scH)
+  | _, _ => none
+
 /-- the response the translated code would give, for the ops that have a translated counterpart -/
 def alt (op : String) (args : List String) : Option String :=
   match op, args with
@@ -104,6 +139,7 @@ def alt (op : String) (args : List String) : Option String :=
   | _, _ =>
     match op.splitOn "." with
     | ["vfel", "avx2", name] => altVec name args
+    | "sc" :: _ => altScalar op args
     | _ => none
 
 /-- combine the specification answer with the translated one -/
